@@ -1188,7 +1188,11 @@ func (fr *frame) loopEnv(li *loopInfo, st *State, phiVals map[*ssa.Phi]TV) *Env 
 			return v, true
 		}
 		// renamed local: if exactly one loop-carried variable is not mentioned by any
-		// invariant of this loop, the unresolved name is bound to it
+		// invariant of this loop, the unresolved name is bound to it (only where no record of
+		// the contract's names exists; see names.go)
+		if fr.s.P.Recorded != nil && fr.s.P.Recorded[FuncKey(fr.s.Top)] != nil {
+			return TV{}, false
+		}
 		used := map[string]bool{}
 		for _, c := range fr.invariants(li) {
 			identsOf(c.E, used)
@@ -1400,6 +1404,12 @@ func (fr *frame) singleDefLocal(name string, st *State) (TV, bool) {
 // is not itself a declared local or a parameter (tolerates renamed locals).
 func (fr *frame) lookupRenamed(name string, at *ssa.BasicBlock, limit ssa.Instruction, st *State) (TV, bool) {
 	if fr.s.FC == nil || !fr.isTop {
+		return TV{}, false
+	}
+	// where the names the contract was written against are recorded, renamed variables are
+	// resolved through that record (names.go); guessing by type could bind the name to an
+	// unrelated variable of the same type when the declared one is gone
+	if fr.s.P.Recorded != nil && fr.s.P.Recorded[FuncKey(fr.s.Top)] != nil {
 		return TV{}, false
 	}
 	var want string
